@@ -140,6 +140,8 @@ class Normalizer:
                 return ("proj", args[0], "std::prelude::v1::Err", 0)
             if l in ("err",) and len(args) == 1 and "Result" in path:
                 return ("ctor?", "err-of", args[0]) if False else t
+            if l == "len" and len(args) == 1 and path != "#len" and any(c in path for c in ("slice", "Vec", "vec::", "[T]")):
+                return ("call", "#len", (strip_adapters(args[0]),))
             if l == "unwrap_or" and len(args) == 2 and ("Option" in path or "Result" in path):
                 which = "some" if "Option" in path else "ok"
                 return self.rewrite(("ite", self.rewrite(M(args[0], which)), self.proj(args[0], SOME if which == "some" else OK, 0), args[1]))
@@ -166,6 +168,25 @@ class Normalizer:
                         return ("collectmap", strip_adapters(a[2]), body[1], kv[0], kv[1])
                     return ("collect", ("hof", "filter", strip_adapters(a[2]), M(a[3], "some"), ()), ("proj", a[3], SOME, 0))
             return t
+        if k == "matches" and t[2][0] == "slice":
+            x, d = strip_adapters(t[1]), t[2]
+            before, rest, after = d[1], d[2], d[3]
+            if not after:
+                n = len(before)
+                ln = ("call", "#len", (x,))
+                if n == 0 and not rest:
+                    cond = ("call", EMPTY, (x,))
+                elif n == 0 and rest:
+                    cond = ("lit", True)
+                elif rest:
+                    cond = neg(("call", EMPTY, (x,))) if n == 1 else ("bin", ">=", ln, ("lit", _int(n)))
+                else:
+                    cond = ("bin", "==", ln, ("lit", _int(n)))
+                for i, sd in enumerate(before):
+                    if not wildish(sd):
+                        cond = ("bin", "&&", cond, self.rewrite(("matches", ("index", x, ("lit", _int(i))), sd)))
+                return cond
+            return t
         if k == "matches":
             x, d = t[1], t[2]
             dk = desc_kind(d)
@@ -186,6 +207,10 @@ class Normalizer:
                     return neg(x[1])
                 if a == b:
                     return a
+            if dk in ("some", "none") and x[0] == "hof" and x[1] == "filter" and self.is_option_hof(x):
+                # opt.filter(|v| c) is Some  <=>  opt is Some && c(v)
+                r = self.rewrite(("bin", "&&", self.rewrite(M(x[2], "some")), x[3]))
+                return r if dk == "some" else neg(r)
             if dk in ("some", "none", "ok", "err"):
                 which = "some" if dk in ("some", "none") else "ok"
                 x2, w2 = self.through(x, which)
@@ -234,6 +259,8 @@ class Normalizer:
                     a, b = (first, second) if pos else (second, first)
                     return self.rewrite(("ite", M(scrut, which), a, b))
             return t
+        if k == "callv" and len(t) == 3 and t[1][0] == "def" and isinstance(t[1][1], str):
+            return ("call", t[1][1], t[2])          # a call through a function value that is a known function
         if k == "hof":
             name, recv, body = t[1], t[2], t[3]
             if name == "any":
@@ -278,6 +305,11 @@ class Normalizer:
             if base[0] == "hof" and base[1] in ("find",) and last(variant) == "Some" and idx == 0:
                 return self.rewrite(("elem", base[2]))
             return self.proj(base, variant, idx)
+        if k == "tproj" and len(t) == 3 and t[1][0] == "call" and isinstance(t[1][1], str) and last(t[1][1]) == "split_at" and len(t[1][2]) == 2 and str(t[2]) in ("0", "1"):
+            x, i = strip_adapters(t[1][2][0]), t[1][2][1]
+            if str(t[2]) == "0":
+                return ("index", x, ("struct", "std::ops::RangeTo", (("end", i),)))
+            return ("index", x, ("struct", "std::ops::RangeFrom", (("start", i),)))
         if k == "tproj" and len(t) == 3 and t[1][0] == "tuple" and str(t[2]).isdigit() and int(str(t[2])) < len(t[1][1]):
             return t[1][1][int(str(t[2]))]
         if k == "tproj" and len(t) == 3 and t[1][0] == "elem":
@@ -290,10 +322,21 @@ class Normalizer:
                 return self.rewrite(("elem", inner[2][int(str(t[2]))]))
             return t
         if k == "index":
+            base, idx = t[1], t[2]
+            # x[a..][k] == x[a + k];  x[a..][b..] == x[a + b..]
+            if base[0] == "index" and base[2][0] == "struct" and last(base[2][1]) == "RangeFrom":
+                a = dict(base[2][2]).get("start")
+                if a is not None:
+                    if idx[0] == "struct" and last(idx[1]) == "RangeFrom":
+                        b = dict(idx[2]).get("start")
+                        if b is not None:
+                            return self.rewrite(("index", base[1], ("struct", "std::ops::RangeFrom", (("start", self.add(a, b)),))))
+                    elif idx[0] != "struct":
+                        return self.rewrite(("index", base[1], self.add(a, idx)))
             return t
         if k == "bin" and t[1] in ("==", "!=", ">", "<", ">=", "<=") and (t[2] == ("lit", 0) or t[3] == ("lit", 0) or t[3] == ("lit", 1)):
             a, b, op = t[2], t[3], t[1]
-            ln = lambda y: y[0] == "call" and isinstance(y[1], str) and last(y[1]) == "len" and len(y[2]) == 1       # noqa: E731
+            ln = lambda y: y[0] == "call" and isinstance(y[1], str) and last(y[1]) in ("len", "#len") and len(y[2]) == 1       # noqa: E731
             e = None
             if ln(a) and b == ("lit", 0) and op in ("==", "<="):
                 e = ("call", EMPTY, (strip_adapters(a[2][0]),))
@@ -338,6 +381,13 @@ class Normalizer:
             return src
         return s0 if s0 is not src and s0[0] in ("hof",) else src
 
+    def add(self, a, b):
+        if b == ("lit", 0):
+            return a
+        if a == ("lit", 0):
+            return b
+        return self.rewrite(("bin", "+", a, b))
+
     def is_variant_tree(self, t):
         if t[0] == "ctor" and last(t[1]) in ("Some", "None", "Ok", "Err"):
             return True
@@ -361,6 +411,11 @@ class Normalizer:
         if m[0] == "mut" and m[2][0] == "call" and last(m[2][1]) == "insert" and len(m[2][2]) == 2 and m[2][2][0] == key:
             return ("ctor", SOME, (m[2][2][1],))
         return ("call", GET, (m, key))
+
+    def is_option_hof(self, x):
+        """The closure of this combinator receives the payload of an Option / Result (not the element of an iterator)."""
+        payload = ("proj", x[2], SOME, 0)
+        return any(y == payload or y == ("payload", x[2]) for y in _sub(x[3])) and not any(y == ("elem", x[2]) for y in _sub(x[3]))
 
     def through(self, x, which):
         """(x', which') such that `x is Ok/Some` iff `x' is which'` and the payloads coincide: ok_or / map_err / ok adapters."""
@@ -386,6 +441,8 @@ class Normalizer:
                 return self.proj(b2, OK if w2 == "ok" else SOME, 0)
         if base[0] == "ctor" and last(base[1]) == last(variant) and isinstance(idx, int) and idx < len(base[2]):
             return base[2][idx]
+        if base[0] == "hof" and base[1] == "filter" and last(variant) == "Some" and idx == 0 and self.is_option_hof(base):
+            return self.proj(base[2], variant, idx)
         if base[0] == "ite" and last(variant) in ("Some", "Ok", "Err", "None"):
             # the payload of variant V of `if c { Other(..) } else { x }` can only come from x
             a, b = base[2], base[3]
